@@ -8,6 +8,7 @@ import (
 	"math/big"
 	"runtime"
 	"strings"
+	"sync"
 	"testing"
 
 	"github.com/gcash/bchutil"
@@ -397,6 +398,63 @@ var kC17Mul = register(&Kind[c17Mul]{
 
 // exhaustiveC17 sweeps contiguous ranges of satoshi amounts (low end, around 1 BCH, around 2^53/1e8
 // boundaries of the float grid, and the top of the 21-million-coin range): BCH round trip and text.
+// ---- kind: labels of unnamed units under concurrency ------------------------------------------
+// Unit labels of unnamed exponents are assembled at run time; several goroutines printing in different
+// unnamed units at once must each get their own label, every time.
+
+type c17Labels struct {
+	Units []int `json:"units"` // one goroutine per entry
+	A     int64 `json:"amount"`
+	Iters int   `json:"iters"`
+}
+
+func evalC17Labels(c c17Labels, o *Obs) error {
+	if len(c.Units) < 2 || len(c.Units) > 16 || c.Iters < 1 || c.Iters > 1000000 {
+		return hbug("bad labels case")
+	}
+	o.NT()
+	o.Class("C17:labels-concurrent")
+	errs := make([]error, len(c.Units))
+	var wg sync.WaitGroup
+	start := make(chan struct{})
+	for g, u := range c.Units {
+		g, u := g, u
+		if u < -12 || u > 12 {
+			return hbug("unit")
+		}
+		want := unitLabel(u)
+		wg.Add(1)
+		go func() {
+			defer wg.Done()
+			<-start
+			for i := 0; i < c.Iters && errs[g] == nil; i++ {
+				if got := bchutil.AmountUnit(u).String(); got != want {
+					errs[g] = fmt.Errorf("AmountUnit(%d).String() = %q while %d goroutines print in units %v; want %q", u, got, len(c.Units), c.Units, want)
+				} else if s := bchutil.Amount(c.A).Format(bchutil.AmountUnit(u)); !strings.HasSuffix(s, " "+want) {
+					errs[g] = fmt.Errorf("Amount(%d).Format(unit %d) = %q while %d goroutines print in units %v; want the label %q", c.A, u, s, len(c.Units), c.Units, want)
+				}
+			}
+		}()
+	}
+	close(start)
+	wg.Wait()
+	for _, e := range errs {
+		if e != nil {
+			return e
+		}
+	}
+	return nil
+}
+
+var kC17Labels = register(&Kind[c17Labels]{Prop: "C17", Name: "labels-concurrent", Eval: evalC17Labels,
+	Gen: func(t *rapid.T) c17Labels {
+		c := c17Labels{A: genSat(t), Iters: pick(3000, 20000)}
+		for g := rapid.IntRange(2, 8).Draw(t, "g"); g > 0; g-- {
+			c.Units = append(c.Units, rapid.IntRange(-12, 12).Draw(t, "u"))
+		}
+		return c
+	}})
+
 func exhaustiveC17(ev *Ev) {
 	n := int64(pick(200000, 8000000))
 	starts := []int64{0, 100000000 - n/2, 4503599627370496/100 - n/2, 2100000000000000 - n}
@@ -454,6 +512,7 @@ func TestC17(t *testing.T) {
 		kC17Unit.Run(t, ev, perShard(pick(60000, 20000000)))
 		kC17Mul.Run(t, ev, perShard(pick(40000, 12000000)))
 		runConcurrent(kC17Unit, t, ev, perShard(pick(300, 30000)), 8)
+		kC17Labels.Run(t, ev, perShard(pick(60, 3000)))
 		ev.requireClasses("C17:new-nan-inf", "C17:new-non-integer-product", "C17:new-integer-product>=2^52", "C17:monotone",
 			"C17:unit=-12", "C17:unit=-9", "C17:unit=-8", "C17:unit=0", "C17:unit=6", "C17:unit=12", "C17:mulf64")
 	})
